@@ -47,6 +47,11 @@ fn main() {
         "replay" => driver::cmd_eval(&args[2], true),
         #[cfg(feature = "sim")]
         "miri" => miri_tier::cmd_miri(&args[2], args[3].parse().unwrap(), args[4].parse().unwrap()),
+        "show" => {
+            // print the scenario a seed generates for a property (debugging aid)
+            let sc = dfamily::gen_for(&args[2], args[3].parse().unwrap());
+            println!("{}", serde_json::to_string(&sc).unwrap());
+        }
         "xdigest" => driver::cmd_xdigest(&args[2], args[3].parse().unwrap(), args[4].parse().unwrap()),
         _ => {
             eprintln!("unknown subcommand");
